@@ -189,6 +189,8 @@ def tasks(tier, seed):
         out.append({"kind": "batch", "solver": b[0], "tier": tier})
     for fam in neighbour_families(tier):
         out.append({"kind": "neighbours", "family": fam, "tier": tier})
+    for fam in neighbour_families(tier):
+        out.append({"kind": "near", "family": fam, "tier": tier})
     if tier == "thorough":
         for word in ("AA", "AB", "BA", "BB"):
             out.append({"kind": "guderley_raw", "word": word, "tier": tier})
@@ -507,6 +509,11 @@ EXTRA_NEIGHBOURS = {
     "Riemann2D": ("riemann2D_2section_steadystate.ep_riemann2D_2section_steadystate.IGEOS_Solver", {},
                   {"bottom_state": [[1.0, 1.0, 2.4, 0.0, 1.4], [1.0, 1.0, 3.0, 0.0, 1.4]], "top_state": [[0.25, 0.5, 7.0, 0.0, 1.4], [0.25, 0.5, 4.0, 0.0, 1.4]]},
                   [[1.0, -0.6], [1.0, -0.1], [1.0, 0.3], [1.0, 0.8]], 0.25),
+    "CylindricalSandwich": ("heat.cylindrical_sandwich.CylindricalSandwich", {"Nsum": 3, "Msum": 4},
+                            {"a": [0.25, 0.3], "b": [0.85, 0.9], "T1": [1.0, 2.0], "T0": [0.0, 0.5], "kappa": [1.0, 2.0]},
+                            [[0.3, 0.5, 0.8], [0.2, 0.8, 1.3]], 0.05),
+    "Hutchens2": ("heat.hutchens2.Hutchens2", {"Nsum": 20}, {"b": [1.0, 1.5], "L": [2.0, 1.0], "Tb": [5.0, 3.0], "T0": [2.0, 1.0], "TL": [1.0, 4.0], "g0": [1.0e13, 2.0e12]},
+                  [[0.2, 0.5, 0.8], [0.3, 1.0, 1.7]], 0.0),
     # one set of left/right states under three equations of state (a table cached under a key that omits the EOS: seeded change S2-C04-2)
     "GenEOS_eos": ("riemann.ep_riemann.GenEOS_Solver", _SHYUE, {"problem": ["JWL", "igeos"], "A": [8.545, 4.2725]}, [20.0, 40.0, 60.0, 80.0], 12.0),
 }
@@ -592,10 +599,63 @@ def run_neighbours(task):
     return res
 
 
+NEAR_REL = 2.0e-6      # inside numpy.isclose's default rtol = 1e-5
+NEAR_ABS = 3.0e-9      # inside numpy.isclose's default atol = 1e-8
+
+
+def _scaled(pts, f):
+    return [_scaled(p, f) for p in pts] if isinstance(pts, list) else pts * f
+
+
+def run_near(task):
+    """Nearly-equal requests on ONE object.  call(t), call(t (1 + 2e-6)), call(t (1 + 2e-6) + 3e-9) and then the same points
+    scaled by (1 + 2e-6) in the same in-place request buffer -- each compared bit for bit (grid solvers: to their documented
+    resolution) with the same call made first on a fresh object.  A memo that recognises its key with a tolerance
+    (numpy.isclose on the time, on the points, on a derived quantity) returns the previous answer for a request that is not
+    the previous request; added after the seeded change S3-C06-3."""
+    import props.C06_ops as opsmod
+    from xpmc import hydro, hydro_more, lattice  # noqa: F401
+    if task["family"].startswith("extra:"):
+        nm = task["family"].split(":", 1)[1]
+        f = {"name": nm, "extra": nm, "alphabet": EXTRA_NEIGHBOURS[nm][2]}
+    else:
+        f = hydro.by_name(task["family"])
+    res = {"evals": 0, "nontrivial": [], "violations": [], "counters": {}, "sample": None, "states": 0, "transitions": 0}
+    dg = Digest()
+    cfg0 = lattice.full_cfg(f["alphabet"], {})
+    mk, c0 = _neighbour_ops(f, cfg0, "a")
+    pts, t = c0["pts"], c0["t"]
+    t1 = t * (1.0 + NEAR_REL)
+    t2 = t1 + NEAR_ABS
+    pn = _scaled(pts, 1.0 + NEAR_REL)
+    steps = [("t(1+2e-6)", pts, t1), ("+3e-9", pts, t2), ("points(1+2e-6)", pn, t2), ("back", pts, t)]
+    seq = [mk, c0] + [call("a", p, tt) for _, p, tt in steps]
+    out = history.run_in_fork(opsmod, seq)
+    res["transitions"] += len(seq)
+    for i, (label, p, tt) in enumerate(steps):
+        obs = out[2 + i]["obs"]
+        ref = history.run_in_fork(opsmod, [dict(mk, slot="r"), call("r", p, tt)])[-1]["obs"]
+        res["evals"] += 2
+        res["states"] += 1
+        res["transitions"] += 2
+        dg.add(label, obs.get("digest"))
+        if obs.get("kind") == "val":
+            res["nontrivial"].append("near|%s|%s" % (f["name"], label))
+        diff = compare(obs, ref)
+        if diff is not None:
+            res["violations"].append(_viol(f["name"], "near:call-after-a-nearly-equal-request-differs-from-first-call",
+                                           {"step": label, "t": tt}, diff.get("max_rel_diff", 1.0), {"diff": diff, "sequence_times": [t, t1, t2, t2, t]}))
+    res["sample"] = {"family": f["name"], "cfg": cfg0, "times": [t, t1, t2], "steps": [s_[0] for s_ in steps]}
+    res["digest"] = dg.hex()
+    return res
+
+
 def run_task(task):
     k = task["kind"]
     if k == "neighbours":
         return run_neighbours(task)
+    if k == "near":
+        return run_near(task)
     if k == "family":
         return run_family(task)
     if k == "pairs":
